@@ -75,7 +75,7 @@ pub fn check_curve(
     let path_mag = path.iter().map(|p| f64::from(p.x.abs().max(p.y.abs()))).fold(0.0, f64::max);
     let tol = 1e-3 * (1.0 + super::curves::max_abs(pts)) + 2e-6 * path_mag;
     let d = c.dist();
-    let mut viol = |class: &str, msg: String, acc: &mut Acc| {
+    let viol = |class: &str, msg: String, acc: &mut Acc| {
         acc.violation(Violation::new(
             class,
             format!("{mode:?} {} len={len:?}: {msg}", points_json(pts)),
